@@ -424,8 +424,8 @@ func Verif_C37_ListenerClose() {
 	if closeUnix {
 		verifrt.Assert(lu.Close() == nil, "Close returns nil when the peer grants the cancel request")
 		verifrt.Assert(len(conn.names) == nreq+1 && conn.names[nreq] == "cancel-streamlocal-forward@openssh.com", "Close sends the cancel request")
-		var m streamLocalChannelForwardMsg
-		verifrt.Assert(Unmarshal(conn.payloads[nreq], &m) == nil && m.socketPath == p, "cancel request names the listener's address")
+		pl := conn.payloads[nreq] // RFC 4251 string: the socket path
+		verifrt.Assert(len(pl) == 6 && pl[0] == 0 && pl[1] == 0 && pl[2] == 0 && pl[3] == 2 && pl[4] == p[0] && pl[5] == p[1], "cancel request names the listener's address")
 		verifrt.Assert(len(cl.forwards.entries) == 1 && cl.forwards.entries[0].network == "tcp", "Close unregisters exactly the closed listener")
 		_, err := lu.Accept()
 		if queued {
@@ -438,8 +438,13 @@ func Verif_C37_ListenerClose() {
 	} else {
 		verifrt.Assert(lt.Close() == nil, "Close returns nil when the peer grants the cancel request")
 		verifrt.Assert(len(conn.names) == nreq+1 && conn.names[nreq] == "cancel-tcpip-forward", "Close sends the cancel request")
-		var m channelForwardMsg
-		verifrt.Assert(Unmarshal(conn.payloads[nreq], &m) == nil && m.addr == "h" && m.rport == 7, "cancel request names the listener's address")
+		pl := conn.payloads[nreq] // string "h", uint32 7
+		want := []byte{0, 0, 0, 1, 'h', 0, 0, 0, 7}
+		same := len(pl) == len(want)
+		for i := 0; same && i < len(want); i++ {
+			same = pl[i] == want[i]
+		}
+		verifrt.Assert(same, "cancel request names the listener's address")
 		verifrt.Assert(len(cl.forwards.entries) == 1 && cl.forwards.entries[0].network == "unix", "Close unregisters exactly the closed listener")
 		_, err := lt.Accept()
 		verifrt.Assert(err == io.EOF, "Accept after Close returns io.EOF")
